@@ -873,6 +873,7 @@ func C01(c *vlib.Ctx) {
 		c.Inconclusive("product binary missing: " + l3.Bin())
 		return
 	}
+	defer c01BusyWriter(c, root)() // starts now, overlaps with everything below, is awaited when C01 returns
 	n := c.N(48, 1200)
 	if os.Getenv("VERIF_C01_STRACE") != "" {
 		n = 2
